@@ -6,7 +6,7 @@
 (* as a declarative parser.  Texts are sequences of byte values 0..255.    *)
 (* CAP1 / CAP2S / CAP2L are the capacities (64 / 32 / 64).                 *)
 (***************************************************************************)
-EXTENDS BlockHash
+EXTENDS BlockHash, SequencesExt
 CONSTANTS NUMBS, CAP1, CAP2S, CAP2L
 
 COLON == 58
@@ -27,8 +27,8 @@ DoubleDigits(ds, i, carry) ==          \* ds least significant first
 RECURSIVE Dec3Pow(_)
 Dec3Pow(n) == IF n = 0 THEN <<3>>
               ELSE CHOOSE r \in {DoubleDigits(d, 1, 0) : d \in {Dec3Pow(n - 1)}} : TRUE
-Reverse(s) == [i \in 1..Len(s) |-> s[Len(s) + 1 - i]]
-BlockSizeText == [n \in 0..(NUMBS - 1) |-> [i \in 1..Len(Dec3Pow(n)) |-> 48 + Reverse(Dec3Pow(n))[i]]]
+RevSeq(s) == [i \in 1..Len(s) |-> s[Len(s) + 1 - i]]
+BlockSizeText == [n \in 0..(NUMBS - 1) |-> [i \in 1..Len(Dec3Pow(n)) |-> 48 + RevSeq(Dec3Pow(n))[i]]]
 
 (* ------------------------------ formatter ------------------------------ *)
 Enc(s) == [i \in 1..Len(s) |-> B64[s[i] + 1]]
@@ -37,11 +37,19 @@ LenInStr(h) == Len(BlockSizeText[h.k]) + Len(h.a) + Len(h.b) + 2
 MaxLenInStr(long) == Len(BlockSizeText[NUMBS - 1]) + CAP1 + (IF long THEN CAP2L ELSE CAP2S) + 2
 
 (* ------------------------------ grammar -------------------------------- *)
-RECURSIVE SpanEnd(_, _, _)
-(* first index >= i whose byte does not satisfy the class (Len(t) + 1 if none) *)
-SpanEnd(t, i, digits) == IF i > Len(t) THEN i
-                         ELSE IF (IF digits THEN IsDigit(t[i]) ELSE IsB64(t[i])) THEN SpanEnd(t, i + 1, digits)
-                         ELSE i
+(* first index >= i whose byte does not satisfy the class (Len(t) + 1 if none): one left fold over
+   the text (evaluated natively by TLC, so texts of 2^16 bytes and more can be validated) *)
+InClass(c, digits) == IF digits THEN IsDigit(c) ELSE IsB64(c)
+SpanEnd(t, i, digits) ==
+  LET step(acc, c) == [at  |-> acc.at + 1,
+                       end |-> IF acc.end # 0 \/ acc.at < i \/ InClass(c, digits) THEN acc.end ELSE acc.at]
+      r == FoldLeft(step, [at |-> 1, end |-> 0], t)
+  IN IF r.end = 0 THEN (IF i > Len(t) THEN i ELSE Len(t) + 1) ELSE r.end
+(* the same by recursion (reference; MCText: SpanEndDefsAgree) *)
+RECURSIVE SpanEndRec(_, _, _)
+SpanEndRec(t, i, digits) == IF i > Len(t) THEN i
+                            ELSE IF InClass(t[i], digits) THEN SpanEndRec(t, i + 1, digits)
+                            ELSE i
 Decode(t, i, j) == [x \in 1..(j - i + 1) |-> B64Value(t[i + x - 1])]
 Err(origin) == [ok |-> FALSE, origin |-> origin]
 (* kind = [norm |-> BOOLEAN, long |-> BOOLEAN, dual |-> BOOLEAN];
